@@ -149,6 +149,16 @@ class Shadow:
             if not ok:
                 raise Undecided('extraction rule %s on %s fired %d times, expected %s -- the '
                                 'extraction no longer matches the source' % (r.name, rel, n, r.count))
+        # guard against the silent front-end deviation: any `auto` declaration the specific rules did not
+        # rewrite gets the generic R-AUTO (decltype of the initialiser); anything still left aborts the run
+        text, n = re.subn(r'((?:const\s+)?)auto(\s+)(\w+)\s*=\s*([^;]+);', _auto_repl, text)
+        if n:
+            fired['R-AUTO(generic)'] = n
+        code = re.sub(r'//[^\n]*|/\*.*?\*/', '', text, flags=re.S)
+        m = re.search(r'[^\n]*\bauto\b[^\n]*', code)
+        if m:
+            raise Undecided('extraction: %s still contains an `auto` declaration the rules do not cover (CBMC would type it int): %s'
+                            % (rel, m.group(0).strip()[:120]))
         out = os.path.join(self.root, out_rel or rel)
         os.makedirs(os.path.dirname(out), exist_ok=True)
         with open(out, 'w') as f:
